@@ -26,7 +26,8 @@ type Step struct {
 }
 
 type Case struct {
-	Op string `json:"op"` // of | bitmap | ofmany | builder
+	Op  string `json:"op"`            // of | bitmap | ofmany | builder | maxbitmap
+	Max int    `json:"max,omitempty"` // maxbitmap: description of the maximum bitmap (exactly 2^25 words = 2^31 bits, gen.UseMax)
 	// of
 	Positions []int32 `json:"positions,omitempty"`
 	HasN      bool    `json:"has_n,omitempty"`
@@ -47,6 +48,7 @@ var checker = &vk.Checker[Case]{
 	ID: "C12",
 	Rule: "Of: ascending position lists (empty, 63/64/65/127/128, gaps up to 2^20; a class with repeated positions) x n in {absent, negative, 0, < last+1, last+1, last+2, word boundary +-1, far larger}; arbitrary bitmaps for ToArray/Of round trips and Get/Get1/SafeGet/SafeGet1 probes (inside; outside: -1, -64, MinInt32, 64*len, 64*len+63, MaxInt32); " +
 		"OfMany on segments cut from one global ascending list (positions >= size occur, size 0 occurs); Builder histories of Extend (ascending positions incl. >= size, size >= 0) and Set(pos, value in 0..3) on builders pre-sized with 0/64/1000 bits, model compared after EVERY step (Offset, exact bits, enough words). Oracle: a set of bit positions + word-count formula. " +
+		"Top of the int32 range: Of / OfMany with last position 2^31-1 or sizes up to 2^31-1 (results of 2^25 words), Get/Get1/SafeGet/SafeGet1 on the maximum bitmap (exactly 2^25 words, three sparse descriptions); thorough also ToArray of it. " +
 		"Grid: Of on all subsets of {0,1,62,63,64,65,127,128} x 12 values of n. Non-trivial: >= 2 positions spanning >= 2 words (Of/bitmap); histories with >= 2 segments in which a position >= its size or an offset crosses a word boundary. Distinct by hash of the case.",
 	Check:    check,
 	Classify: classify,
@@ -62,7 +64,11 @@ func bitsEqual(got []uint64, set map[int]bool) (int, bool) {
 		}
 		exp[p/64] |= 1 << (uint(p) % 64)
 	}
+	seen := 0
 	for wi, g := range got {
+		if g == 0 { // (no map lookup for the empty words of a huge result)
+			continue
+		}
 		if g != exp[wi] {
 			d := g ^ exp[wi]
 			for b := 0; b < 64; b++ {
@@ -71,8 +77,29 @@ func bitsEqual(got []uint64, set map[int]bool) (int, bool) {
 				}
 			}
 		}
+		seen++
+	}
+	if seen != len(exp) {
+		for wi, e := range exp {
+			if got[wi] != e {
+				d := got[wi] ^ e
+				for b := 0; b < 64; b++ {
+					if d>>uint(b)&1 == 1 {
+						return 64*wi + b, false
+					}
+				}
+			}
+		}
 	}
 	return 0, true
+}
+
+// short renders a bitmap for a failure message (huge ones are abbreviated).
+func short(w []uint64) string {
+	if len(w) <= 64 {
+		return fmt.Sprintf("%#x", w)
+	}
+	return fmt.Sprintf("%#x ... (%d words)", w[:8], len(w))
 }
 
 // guarded returns a copy of p with spare capacity that holds canaries, and a function that reports a damaged canary.
@@ -148,9 +175,9 @@ func checkOf(c Case) *vk.Failure {
 		}
 	}
 	if p, ok := bitsEqual(got, set); !ok {
-		return vk.Failf("of-bits", "Of(%v, n=%v/%d): bit %d is wrong (words %#x)", c.Positions, c.HasN, c.N, p, got)
+		return vk.Failf("of-bits", "Of(%v, n=%v/%d): bit %d is wrong (words %s)", c.Positions, c.HasN, c.N, p, short(got))
 	}
-	if strict {
+	if strict && (len(got) <= 1<<21 || vk.Pick(false, true)) { // (ToArray of a 2^25-word bitmap takes seconds: thorough only)
 		var arr []int32
 		if f := vk.Try("ToArray(Of(l))", func() { arr = bitmap.ToArray(got) }); f != nil {
 			return f
@@ -284,6 +311,60 @@ func checkBitmap(c Case) (f *vk.Failure) {
 	return nil
 }
 
+// checkMaxBitmap: inspection of the largest bitmap whose positions fit an int32 (sparse oracle from its description).
+func checkMaxBitmap(v int) *vk.Failure {
+	if v < 0 || v >= gen.MaxVariants {
+		return nil
+	}
+	words := gen.UseMax(v)
+	ps := append(gen.MaxProbes(), -1, -64, math.MinInt32, math.MinInt32+63)
+	for _, p64 := range ps {
+		p := int32(p64)
+		var b uint64
+		if p >= 0 {
+			b = gen.MaxBit(p64)
+		}
+		wantInPlace := b << (uint(p) & 63)
+		var sg, sg1, g, g1 uint64
+		if f := vk.Try(fmt.Sprintf("SafeGet/SafeGet1(%d) on 2^25 words", p), func() {
+			sg, sg1 = bitmap.SafeGet(words, p), bitmap.SafeGet1(words, p)
+		}); f != nil {
+			f.Kind = "safeget-panic"
+			return f
+		}
+		if sg != wantInPlace || sg1 != b {
+			return vk.Failf("safeget", "SafeGet/SafeGet1(2^25-word bitmap (description %d), %d) = %#x/%d, want %#x/%d", v, p, sg, sg1, wantInPlace, b)
+		}
+		if p >= 0 {
+			if f := vk.Try(fmt.Sprintf("Get/Get1(%d) on 2^25 words", p), func() { g, g1 = bitmap.Get(words, p), bitmap.Get1(words, p) }); f != nil {
+				return f
+			}
+			if g != wantInPlace || g1 != b {
+				return vk.Failf("get", "Get/Get1(2^25-word bitmap (description %d), %d) = %#x/%d, want %#x/%d", v, p, g, g1, wantInPlace, b)
+			}
+		}
+	}
+	if vk.Pick(false, true) { // bit-by-bit over 2^31 positions: seconds, thorough only
+		want := gen.MaxOnes()
+		var arr []int32
+		if f := vk.Try("ToArray(2^25 words)", func() { arr = bitmap.ToArray(words) }); f != nil {
+			return f
+		}
+		if len(arr) != len(want) {
+			return vk.Failf("toarray", "ToArray(2^25-word bitmap (description %d)) has %d entries, want %d", v, len(arr), len(want))
+		}
+		for i := range arr {
+			if int64(arr[i]) != want[i] {
+				return vk.Failf("toarray", "ToArray(2^25-word bitmap (description %d))[%d] = %d, want %d", v, i, arr[i], want[i])
+			}
+		}
+	}
+	if k, bad := gen.MaxBitmapDamage(); bad {
+		return vk.Failf("mutates", "an inspection function modified word %d of the 2^25-word bitmap", k)
+	}
+	return nil
+}
+
 func checkOfMany(c Case) *vk.Failure {
 	subs := make([][]int32, len(c.Subs))
 	oks := make([]func() string, len(c.Subs))
@@ -315,14 +396,16 @@ func checkOfMany(c Case) *vk.Failure {
 		return vk.Failf("ofmany-len", "OfMany(%v, %v) has %d words, want %d", c.Subs, c.Sizes, len(got), (need+63)/64)
 	}
 	if p, ok := bitsEqual(got, set); !ok {
-		return vk.Failf("ofmany-bits", "OfMany(%v, %v): bit %d is wrong (words %#x)", c.Subs, c.Sizes, p, got)
+		return vk.Failf("ofmany-bits", "OfMany(%v, %v): bit %d is wrong (words %s)", c.Subs, c.Sizes, p, short(got))
 	}
 	for i, ok := range oks {
 		if msg := ok(); msg != "" {
 			return vk.Failf("ofmany-mutates", "OfMany(%v, %v), sub-list %d: %s", c.Subs, c.Sizes, i, msg)
 		}
 	}
-	watchWords("OfMany", got)
+	if len(got) <= 1<<12 {
+		watchWords("OfMany", got)
+	}
 	return nil
 }
 
@@ -386,6 +469,8 @@ func check(c Case) *vk.Failure {
 		return checkBitmap(c)
 	case "ofmany":
 		return checkOfMany(c)
+	case "maxbitmap":
+		return checkMaxBitmap(c.Max)
 	}
 	return checkBuilder(c)
 }
@@ -418,6 +503,8 @@ func classify(c Case) (bool, []string) {
 			labels = append(labels, "n:absent")
 		}
 		return nt, labels
+	case "maxbitmap":
+		return true, labels
 	case "bitmap":
 		cnt, first, last := 0, -1, -1
 		for i := 0; i < 64*len(c.Words); i++ {
@@ -721,6 +808,30 @@ func TestGrid(t *testing.T) {
 			w[i] = vk.Mix(uint64(i)+uint64(n)) & vk.Mix(uint64(i)*3)
 		}
 		checker.Run(t, Case{Op: "bitmap", Words: w, Probes: []int32{0, int32(64*len(w)) - 1, 65536, 65535}, Class: "grid-long"})
+	}
+	// the top of the int32 range: results of exactly 2^25 words (untouched pages cost nothing)
+	top := int32(math.MaxInt32)
+	for _, c := range []Case{
+		{Op: "of", Positions: []int32{3, top}},
+		{Op: "of", Positions: []int32{top}},
+		{Op: "of", Positions: []int32{0, top - 64, top - 1, top}},
+		{Op: "of", Positions: []int32{top - 1}},
+		{Op: "of", Positions: []int32{top - 63}},
+		{Op: "of", Positions: []int32{top - 64}},
+		{Op: "of", Positions: nil, HasN: true, N: top},
+		{Op: "of", Positions: []int32{3}, HasN: true, N: top - 62},
+		{Op: "of", Positions: []int32{3}, HasN: true, N: top - 63},
+		{Op: "of", Positions: []int32{5, 1 << 30, top}, HasN: true, N: top},
+		{Op: "of", Positions: []int32{5, 1 << 30, top - 1}, HasN: true, N: top},
+		{Op: "ofmany", Subs: [][]int32{{1}, {5}}, Sizes: []int32{1 << 30, 1<<30 - 1}},
+		{Op: "ofmany", Subs: [][]int32{{1}, {5, 1<<30 - 1}, {}}, Sizes: []int32{1 << 30, 1 << 29, 1<<29 - 1}},
+		{Op: "ofmany", Subs: [][]int32{{0}, {1<<30 - 2}}, Sizes: []int32{1<<30 + 1, 1<<30 - 2}},
+	} {
+		c.Class = "grid-top-of-int32"
+		checker.Run(t, c)
+	}
+	for v := 0; v < gen.MaxVariants; v++ {
+		checker.Run(t, Case{Op: "maxbitmap", Max: v, Class: "grid-maximum"})
 	}
 	vk.MarkExhaustive("Of on all subsets of {0,1,62,63,64,65,127,128} x n in {absent, MinInt32, -1, 0, 1, 63, 64, 65, 128, 129, 130, 192, 1000}")
 }
